@@ -465,7 +465,7 @@ def judged(fmt, names, seqs):
 
 
 # ----------------------------------------------------------------------------- FASTA grammar
-G_LABELS = ["a", "b c", "a>b", "#c", "s|x;1", "b"]
+G_LABELS = ["a", "b c", "a>b", "#c", "s|x;1", "b", ">d"]  # the last one starts with the record marker itself
 G_SEQS = ["A", "AC", "ACG"]
 
 
